@@ -34,7 +34,7 @@ type view struct {
 	closeT  int
 	sends   []Obs // client -> router
 	// senderCancels: progressive calls whose scripted sendProg fails or ends with the context: their
-	// sender goroutine sends one CANCEL of its own, with the hard-coded mode killnowait
+	// sender goroutine sends one CANCEL of its own (with the configured mode)
 	senderCancels map[int]bool
 }
 
@@ -289,13 +289,16 @@ func check(sc Scenario, res Result, prop string) []Violation {
 			}
 		}
 		if v.senderCancels[g] {
-			// CallProgressive: the sender goroutine's own CANCEL (hard-coded killnowait, whatever the
-			// configured mode: reported as a finding candidate) is not the waiter's
-			for i, cm := range cancels {
-				if m := cm[2].([]any); strOf(at(m, 2)) == "killnowait" {
-					cancels = append(append([]Obs{}, cancels[:i]...), cancels[i+1:]...)
-					break
+			// CallProgressive: when its scripted sendProg fails or returns the context's error, the sender
+			// goroutine sends a CANCEL of its own next to the waiter's: one more CANCEL, which must carry
+			// the configured mode like every other (checked below before it is set aside)
+			for _, cm := range cancels {
+				if m := cm[2].([]any); strOf(at(m, 2)) != mode {
+					add("C16.cancel", fmt.Sprintf("Call %d: CANCEL carries mode %q, configured mode is %q", g, strOf(at(m, 2)), mode))
 				}
+			}
+			if len(cancels) > 0 {
+				cancels = cancels[1:]
 			}
 		}
 		ct, cancelled := v.cancelT[g]
